@@ -133,6 +133,7 @@ pub fn build_scheduled(c: &BuiltCase, schedule: &mut Rng) -> Option<(ModuleGraph
     .map(|(r, i)| ReferrerImports { referrer: ModuleSpecifier::parse(r).unwrap(), imports: i.clone() })
     .collect();
   let exec = InlineExecutor;
+  let npm = c.world.npm.as_ref().map(|a| crate::world::WorldNpm { answers: a, log: &loader.inner.log });
   let options = BuildOptions {
     is_dynamic: c.bcfg.is_dynamic,
     skip_dynamic_deps: c.bcfg.skip_dynamic_deps,
@@ -140,6 +141,7 @@ pub fn build_scheduled(c: &BuiltCase, schedule: &mut Rng) -> Option<(ModuleGraph
     unstable_text_imports: c.unstable.1,
     unstable_css_imports: c.unstable.2,
     passthrough_jsr_specifiers: c.world.passthrough_jsr,
+    npm_resolver: npm.as_ref().map(|r| r as &dyn deno_graph::source::NpmResolver),
     executor: &exec,
     ..Default::default()
   };
